@@ -253,7 +253,7 @@ PROPS["C08"] = dict(
 )
 
 PROPS["C09"] = dict(
-    pkg="c09", level="exploration", design_ref="DESIGN.md section 3, C09",
+    pkg="c09", env=dict(VERIF_SHRINKTIME="15s"), level="exploration", design_ref="DESIGN.md section 3, C09",
     technique="rapid-generated concurrent callers on one client with harness-controlled completion order (gated service functions) and scripted peers speaking the frame formats with generated response orders, stray and duplicated identifiers; 15-bit identifier wrap on UDP; reverse calls against real and scripted providers",
     level_text=("(a) 2-12 callers on one client (mock, tcp, unix, udp, websocket on both servers, http, fasthttp; worker pool on/off) call a gated function; the harness completes the "
                 "functions in a generated order (in order, reversed, permuted, interleaved; strictly one by one or at once) with quick calls in between; every caller must receive "
@@ -273,7 +273,7 @@ PROPS["C09"] = dict(
 )
 
 PROPS["C12"] = dict(
-    pkg="c12", level="exploration", design_ref="DESIGN.md section 3, C12",
+    pkg="c12", env=dict(VERIF_SHRINKTIME="15s"), level="exploration", design_ref="DESIGN.md section 3, C12",
     technique="rapid-generated and swept payload lengths/contents through an IO-level recording service on every transport (byte-exact differential in both directions); exhaustive single-bit header corruption and declared-versus-actual length matrices with hand-made frames against the real server and, through a scripted peer, against the real client",
     level_text=("An IO plugin records the exact request bytes the service is handed and answers with generated bytes of a requested length; raw Client.Request is used on mock, tcp, "
                 "unix, udp, websocket (net/http and fasthttp servers), net/http and fasthttp (both client transports). (a) rapid draws request and response lengths with boundary bias "
@@ -292,7 +292,7 @@ PROPS["C12"] = dict(
 )
 
 PROPS["C13"] = dict(
-    pkg="c13", level="exploration", design_ref="DESIGN.md section 3, C13",
+    pkg="c13", env=dict(VERIF_SHRINKTIME="15s"), level="exploration", design_ref="DESIGN.md section 3, C13",
     technique="rapid-generated (transport, limit, size relative to the limit, call or raw bytes, length declaration) requests against a service with a counting IO plugin and a counting published function; library client for truthful declarations, hand-made HTTP requests, socket frames, datagrams and websocket messages for absent/understated/overstated ones",
     level_text=("MaxRequestLength is set per case to a generated limit (boundary-biased, 0 to 1 MiB; below the datagram size on UDP) and a request of limit-1, limit, limit+1, limit+small or "
                 "far above is sent: (a) through the library client on mock, tcp, unix, udp, websocket (both servers), net/http and fasthttp (both client transports), worker pool on/off: "
@@ -303,6 +303,24 @@ PROPS["C13"] = dict(
     level_note="The limit is changed on the live service between cases (the handlers read it per request); cases on one endpoint are serialised.",
     rule=("rapid-drawn cases; all non-trivial (a limit is set and the size is chosen relative to it). Classes: transport x declaration x over/within, exact edges (size = limit, limit+1), pool, "
           "call versus raw bytes, HTTP method. Distinct by case text."),
+    assumptions=["loopback networking and unix sockets are available"],
+    quick=dict(shards=4, timeout=900),
+    thorough=dict(shards=16, timeout=3000),
+)
+
+PROPS["C11"] = dict(
+    pkg="c11", env=dict(VERIF_SHRINKTIME="15s"), level="exploration", design_ref="DESIGN.md section 3, C11",
+    technique="enumerated fault catalogue x transports x worker pool with sentinel calls in flight on the same and on another client, rapid-generated fault sequences and bursts, scripted peers misbehaving towards the real client; process death of the shard is attributed to the running case by the driver",
+    level_text=("A catalogue of about 90 faults - service functions panicking with 13 kinds of values (strings, errors, structs, nil, runtime errors), panicking invoke/IO plugins and "
+                "missing-method handler, wrongly typed, surplus or missing arguments, unencodable results, 21 kinds of undecodable request bytes, messages too large for a datagram, and "
+                "hand-made malformed frames, datagrams, websocket messages and HTTP requests from a peer of their own (short, bad checksum, lying lengths, error flag, a call in flight "
+                "followed by a broken frame) - is run on every transport it applies to (mock, tcp, unix, udp, websocket x2, http, fasthttp; worker pool 0/8) while a gated call of the same "
+                "client and one of another client are in flight: the faulty call must fail, the in-flight calls must complete (the same client's only unless the fault may cost its "
+                "connection), calls issued afterwards on both clients must succeed, and the process must survive. rapid draws sequences and bursts of faults per endpoint; small worker pools "
+                "(1, 2) face more dropped raw peers than they have workers. On the client side a scripted peer answers one of two pending calls with 15 kinds of faulty responses."),
+    level_note="Server, clients and harness share one process per shard: a fault that kills the process is reported by the driver as a violation attributed to the case that was executing.",
+    rule=("every-fault: enumerated (endpoint x applicable fault), all non-trivial; fault-sequences: rapid-drawn sequences; small-pool / client-side: enumerated. Classes: transport x fault level "
+          "(call / connection / raw peer), pool. Distinct by case text."),
     assumptions=["loopback networking and unix sockets are available"],
     quick=dict(shards=4, timeout=900),
     thorough=dict(shards=16, timeout=3000),
